@@ -223,11 +223,16 @@ func cmdsNode(cmds []cspec) *sx.Node {
 		}
 		cn := sx.L(sx.I(cs.q), sx.I(ms))
 		for _, ts := range cs.targets {
+			tn := sx.L(sx.I(ts.t))
 			if ts.mode == "auto" {
-				cn.Add(sx.L(sx.I(ts.t), sx.L(sx.A("auto"), sx.I(ts.tag), sx.B(ts.err))))
+				tn.Add(sx.L(sx.A("auto"), sx.I(ts.tag), sx.B(ts.err)))
 			} else {
-				cn.Add(sx.L(sx.I(ts.t), sx.A(ts.mode)))
+				tn.Add(sx.A(ts.mode))
 			}
+			if ts.arg > 0 {
+				tn.Add(sx.I(ts.arg))
+			}
+			cn.Add(tn)
 		}
 		n.Add(cn)
 	}
@@ -263,8 +268,12 @@ func genCase(r *rng.R, maxCmds, maxTargets int) fw.Case {
 			perm[i] = i
 		}
 		rng.Shuffle(r, perm)
+		withArgs := r.P(2, 5) // the command carries an argument map that binds some of its targets
 		for _, t := range perm[:nt] {
 			ts := tspec{t: t, mode: "ok"}
+			if withArgs && r.P(2, 3) {
+				ts.arg = r.Range(1, 99)
+			}
 			switch x := r.N(10); {
 			case x < 2:
 				ts.mode = "fail"
@@ -393,7 +402,7 @@ func genCase(r *rng.R, maxCmds, maxTargets int) fw.Case {
 func tagsOf(cmds []cspec, s *sim) []string {
 	tags := []string{fmt.Sprintf("cmds=%d", len(cmds))}
 	qs := map[int]bool{}
-	maxT, short, fail, auto, silent := 0, 0, 0, 0, 0
+	maxT, short, fail, auto, silent, args, autoYield, autoLong := 0, 0, 0, 0, 0, 0, 0, 0
 	for c, cs := range cmds {
 		qs[cs.q] = true
 		if len(cs.targets) > maxT {
@@ -408,10 +417,19 @@ func tagsOf(cmds []cspec, s *sim) []string {
 				fail++
 			case "auto":
 				auto++
+				if (ts.tag+ts.t)%2 == 1 {
+					autoYield++
+				}
+				if cs.long || cs.tmo == 0 {
+					autoLong++
+				}
 			case "ok":
 				if !s.replied[[2]int{c, ts.t}] {
 					silent++
 				}
+			}
+			if ts.arg > 0 {
+				args++
 			}
 		}
 	}
@@ -427,6 +445,15 @@ func tagsOf(cmds []cspec, s *sim) []string {
 	}
 	if auto > 0 {
 		tags = append(tags, "reply-inside-send")
+	}
+	if autoYield > 0 {
+		tags = append(tags, "reply-inside-send+yield")
+	}
+	if autoLong > 0 {
+		tags = append(tags, "reply-inside-send,long-timeout")
+	}
+	if args > 0 {
+		tags = append(tags, "per-target-arguments")
 	}
 	for _, k := range []string{"own-reply", "duplicate", "late", "early", "early-while-queued", "foreign-id", "wrong-sender",
 		"error-reply", "reply-after-send-failure", "reply-racing-timeout", "concurrent-enqueue"} {
